@@ -30,7 +30,8 @@ ASSUMPTIONS = ["the closure walk checks name resolution of unexecuted paths, not
 BUDGET_S = {"quick": 150, "thorough": 1500}
 CASES_PER_PROCESS = {"quick": 500, "thorough": 1200}
 MIN_EVENTS = {"quick": {"evaluations": 4000, "functions_walked": 5000, "error_paths_provoked": 20000, "identity_checks": 1500, "passthrough_union_cases": 60,
-                        "module_name_ok": 100, "nested_specialisations_ok": 60, "foreign_default_ok": 60},
+                        "module_name_ok": 100, "nested_specialisations_ok": 60, "foreign_default_ok": 60,
+                        "late_specialisations_ok": 100, "container_subclasses_ok": 100},
               "thorough": {"evaluations": 10000, "functions_walked": 15000, "error_paths_provoked": 60000, "identity_checks": 4000}}
 
 
@@ -62,7 +63,11 @@ def run_case(seed, tier, rec, st):
         foreign_default_case(rng, tier, rec, st)
     elif x < 0.09:
         nested_specialisations_case(rng, tier, rec, st)
-    elif x < 0.14:
+    elif x < 0.11:
+        late_specialisation_case(rng, tier, rec, st)
+    elif x < 0.13:
+        container_subclass_case(rng, tier, rec, st)
+    elif x < 0.18:
         passthrough_union_case(rng, tier, rec, st)
     elif x < 0.58:
         schema_case(rng, tier, rec, st)
@@ -266,6 +271,114 @@ def nested_specialisations_case(rng, tier, rec, st):
             else:
                 rec.violation(f"nested-specialisations:{name}:wrong-value", dict(ctx, observed=common.short(back, 400)), facts)
         walk_new_functions(rec, st, dict(ctx, kind="nested-specialisations"))
+    finally:
+        fam.dispose()
+
+
+def late_specialisation_case(rng, tier, rec, st):
+    """specialisations of a generic dataclass that are compiled LATE (lazy_compilation, first call with a dialect, a postponed
+    annotation) and whose type argument cannot be found again by its dotted name: a class later shadowed by a newer class of the
+    same name.  The argument is bound by identity, late or not."""
+    from mashumaro.codecs.basic import BasicDecoder, BasicEncoder
+    fam = Family("c17", future_annotations=rng.random() < 0.3)
+    try:
+        # (only ONE of the two homonymous classes is used as an argument: specialisations are told apart by the rendered name of
+        # their arguments; lazy_compilation is left out: a lazily compiled class looks its member classes up by dotted name at first use, the
+        # recorded finding F13, which the 'rebound' identity cases observe)
+        late = rng.choice(["call-dialect", "call-dialect", "eager"])
+        opts = []
+        if "lazy" in late:
+            opts.append("lazy_compilation = True")
+        if "call-dialect" in late:
+            opts.append("code_generation_options = [ADD_DIALECT_SUPPORT]")
+        cfg = ("    class Config(BaseConfig):\n" + "".join(f"        {o}\n" for o in opts)) if opts else ""
+        gmix = "DataClassDictMixin, " if rng.random() < 0.5 or "call-dialect" in late else ""
+        fam.module.dataclasses = __import__("dataclasses")
+        fam.exec_src("T = TypeVar('T')\nclass DD(Dialect):\n    serialization_strategy = {datetime.date: {'serialize': lambda d: d.toordinal(), 'deserialize': datetime.date.fromordinal}}\n"
+                     f"@dataclass\nclass Page({gmix}Generic[T]):\n    items: List[T] = field(default_factory=list)\n    first: Optional[T] = None\n" + cfg +
+                     "@dataclass\nclass Money:\n    amount: int = 0\n    on: Optional[datetime.date] = None\nLegacyMoney = Money\n"
+                     "@dataclass\nclass Money:\n    value: str = ''\n    currency: str = 'EUR'\n"
+                     "@dataclass\nclass Tag:\n    name: str = ''\n"
+                     "@dataclass\nclass Wallet(DataClassDictMixin):\n    legacy: Page[LegacyMoney] = field(default_factory=Page)\n    tags: Page[Tag] = field(default_factory=Page)\n"
+                     "    by_day: Dict[str, Page[LegacyMoney]] = field(default_factory=dict)\n" + cfg)
+        m = fam.module
+        import datetime
+        old, new, tag = m.LegacyMoney(5, datetime.date(2020, 1, 2)), m.Money("7", "USD"), m.Tag("t")
+        w = m.Wallet(m.Page([old], old), m.Page([tag], None), {"d": m.Page([old], None)})
+        ctx = {"source": "".join(fam.sources[1:]), "late": late}
+        facts = {"scenario": "late-specialisation", "monitor": "late-specialisation", "late": late}
+        kw = {"dialect": m.DD} if "call-dialect" in late else {}
+        routes = [("mixin", lambda: m.Wallet.from_dict(w.to_dict(**kw), **kw)), ("codec", lambda: BasicDecoder(m.Wallet).decode(BasicEncoder(m.Wallet).encode(w)))]
+        if gmix:
+            PL = eval("Page[LegacyMoney]", m.__dict__)
+            routes.append(("specialisation-itself", lambda: m.Wallet(PL.from_dict(w.legacy.to_dict(**kw), **kw), w.tags, w.by_day)))
+        rng.shuffle(routes)
+        for name, fn in routes:
+            rec.evaluation()
+            try:
+                back = fn()
+            except Exception as e:
+                rec.violation(f"late-specialisation:{name}:{type(e).__name__}", dict(ctx, error=f"{type(e).__name__}: {e}"[:300], cause=repr(e.__context__)[:200]), dict(facts, exc=type(e).__name__))
+                continue
+            if (back == w and type(back.legacy.items[0]) is m.LegacyMoney and type(back.legacy.first) is m.LegacyMoney
+                    and type(back.tags.items[0]) is m.Tag and type(back.by_day["d"].items[0]) is m.LegacyMoney):
+                rec.count("late_specialisations_ok")
+                rec.nontrivial(("late-specialisation", name, late, gmix))
+            else:
+                rec.violation(f"late-specialisation:{name}:instances-of-another-class", dict(ctx, observed=common.short(back, 400), expected=common.short(w, 400)), facts)
+        walk_new_functions(rec, st, dict(ctx, kind="late-specialisation"))
+    finally:
+        fam.dispose()
+
+
+CONTAINER_SUBCLASSES = {
+    "History": ("class History(collections.deque):\n    pass\n", "History([1, 2])", [1, 2]),
+    "Inventory": ("class Inventory(collections.Counter):\n    pass\n", "Inventory({'a': 2})", {"a": 2}),
+    "Registry": ("class Registry(collections.OrderedDict):\n    pass\n", "Registry([('k', 1)])", {"k": 1}),
+    "Defaults": ("class Defaults(collections.defaultdict):\n    pass\n", "Defaults(None, {'k': 1})", {"k": 1}),
+    "Layers": ("class Layers(collections.ChainMap):\n    pass\n", "Layers({'a': 1}, {'b': 2})", [{"a": 1}, {"b": 2}]),
+}
+
+
+def container_subclass_case(rng, tier, rec, st):
+    """members typed by a USER subclass of a collections container, in a class none of whose other annotations names the
+    collections package: the generated code builds collections.deque(...) & co. and has to bind that module itself."""
+    import collections
+    from mashumaro.codecs.basic import BasicDecoder, BasicEncoder
+    fam = Family("c17", future_annotations=rng.random() < 0.2)
+    try:
+        names = rng.sample(sorted(CONTAINER_SUBCLASSES), rng.randint(1, 2))
+        mixin = rng.random() < 0.6
+        fam.exec_src("".join(CONTAINER_SUBCLASSES[n][0] for n in names))
+        fam.exec_src(f"@dataclass\nclass Shelf{'(DataClassDictMixin)' if mixin else ''}:\n" + "".join(f"    f{i}: {n}\n" for i, n in enumerate(names)) + "    n: int = 0\n"
+                     + ("    class Config(BaseConfig):\n        lazy_compilation = True\n" if rng.random() < 0.2 else ""))
+        m = fam.module
+        vals = [eval(CONTAINER_SUBCLASSES[n][1], m.__dict__) for n in names]
+        v = m.Shelf(*vals)
+        doc = dict({f"f{i}": CONTAINER_SUBCLASSES[n][2] for i, n in enumerate(names)}, n=0)
+        ctx = {"source": "".join(fam.sources[1:])}
+        facts = {"scenario": "container-subclass", "monitor": "container-subclass", "containers": names}
+        routes = [("codec", lambda: (BasicEncoder(m.Shelf).encode(v), BasicDecoder(m.Shelf).decode(doc)))]
+        if mixin:
+            routes.append(("mixin", lambda: (v.to_dict(), m.Shelf.from_dict(doc))))
+        routes.append(("codec-of-the-container", lambda: ({"f0": BasicEncoder(getattr(m, names[0])).encode(vals[0]), **{k: x for k, x in doc.items() if k != "f0"}},
+                                                           m.Shelf(BasicDecoder(getattr(m, names[0])).decode(doc["f0"]), *vals[1:]))))
+        rng.shuffle(routes)
+        bases = {"History": collections.deque, "Inventory": collections.Counter, "Registry": collections.OrderedDict, "Defaults": collections.defaultdict, "Layers": collections.ChainMap}
+        for name, fn in routes:
+            rec.evaluation()
+            try:
+                out, back = fn()
+            except Exception as e:
+                rec.violation(f"container-subclass:{name}:{type(e).__name__}", dict(ctx, error=f"{type(e).__name__}: {e}"[:300], cause=repr(e.__context__)[:200]), dict(facts, exc=type(e).__name__))
+                continue
+            got = [getattr(back, f"f{i}") for i in range(len(names))]
+            if out == doc and all(isinstance(g, bases[n]) and (list(g) == list(x) if n == "History" else g == x) for g, x, n in zip(got, vals, names)):
+                rec.count("container_subclasses_ok")
+                rec.nontrivial(("container-subclass", name, tuple(names), mixin))
+            else:
+                rec.violation(f"container-subclass:{name}:wrong-value", dict(ctx, observed=[common.short(out, 200), common.short(back, 200)], expected=common.short(doc, 200)), facts)
+        walk_new_functions(rec, st, dict(ctx, kind="container-subclass"))
     finally:
         fam.dispose()
 
